@@ -58,6 +58,8 @@ type subDesc struct {
 	Paths       []pathDesc `json:"paths"`
 	UpdatesOnly bool       `json:"uo,omitempty"`
 	User        string     `json:"user,omitempty"`
+	// PrefixElems: path elements carried in the prefix of the request (they apply to every subscription path).
+	PrefixElems []elemDesc `json:"pe,omitempty"`
 	// Stall: during these phases every Send of the subscriber blocks at a driver gate.
 	// Kind "transient": the gate opens once the phase's writers are done; "permanent":
 	// it never opens (the server's send timeout has to end the RPC).
@@ -113,6 +115,10 @@ func (e *subEnv) emit(ev trace.E) {
 	e.w.Emit(ev)
 	e.emu.Unlock()
 }
+
+// prefixContainer is a top-level container that is never a leaf: data paths are sometimes put below
+// it (cacheGen.dataPath), requests sometimes carry it as prefix element, and a second sentinel lives in it.
+const prefixContainer = "p"
 
 func isAuxPath(p []string) bool {
 	if isMetaIdx(p) {
@@ -364,6 +370,9 @@ func (r *subRun) Send(resp *pb.SubscribeResponse) error {
 
 func (r *subRun) request() *pb.SubscribeRequest {
 	sl := &pb.SubscriptionList{Prefix: &pb.Path{Target: r.d.Target, Origin: r.d.Origin}, UpdatesOnly: r.d.UpdatesOnly}
+	if len(r.d.PrefixElems) > 0 {
+		sl.Prefix.Elem = pathPool{}.build(&pathDesc{Elems: r.d.PrefixElems}).GetElem()
+	}
 	switch r.d.Mode {
 	case "once":
 		sl.Mode = pb.SubscriptionList_ONCE
@@ -384,6 +393,7 @@ func (r *subRun) request() *pb.SubscribeRequest {
 // subPaths renders the subscription paths as index paths (origin first).
 func (r *subRun) subPaths() [][]string {
 	out := [][]string{}
+	pre := elemsOf(pathPool{}.build(&pathDesc{Elems: r.d.PrefixElems}))
 	for i := range r.d.Paths {
 		pp := pathPool{}
 		p := pp.build(&r.d.Paths[i])
@@ -393,13 +403,14 @@ func (r *subRun) subPaths() [][]string {
 		} else if p.GetOrigin() != "" {
 			q = append(q, p.GetOrigin())
 		}
+		q = append(q, pre...)
 		out = append(out, append(q, elemsOf(p)...))
 	}
 	// the sentinel path is part of the request (see request)
 	if r.d.Origin != "" {
-		out = append(out, []string{r.d.Origin, sentinelName})
+		out = append(out, append(append([]string{r.d.Origin}, pre...), sentinelName))
 	} else {
-		out = append(out, []string{sentinelName})
+		out = append(out, append(append([]string{}, pre...), sentinelName))
 	}
 	return out
 }
@@ -518,13 +529,17 @@ func (e *subEnv) writerOp(t string, o cacheOp) {
 }
 
 func (e *subEnv) writeSentinel(t string, v int64) {
-	for _, origin := range []string{"", "oc"} {
-		e.c.GnmiUpdate(&pb.Notification{
-			Timestamp: atomic.AddInt64(&subClock, 1),
-			Prefix:    &pb.Path{Target: t, Origin: origin},
-			Update: []*pb.Update{{Path: &pb.Path{Elem: pathElems(sentinelName)},
-				Val: &pb.TypedValue{Value: &pb.TypedValue_IntVal{IntVal: v}}}},
-		})
+	// below the reserved container first (requests that carry it as prefix element see only that
+	// one), the top-level one last: whoever receives both receives the top-level one last
+	for _, path := range [][]string{{prefixContainer, sentinelName}, {sentinelName}} {
+		for _, origin := range []string{"", "oc"} {
+			e.c.GnmiUpdate(&pb.Notification{
+				Timestamp: atomic.AddInt64(&subClock, 1),
+				Prefix:    &pb.Path{Target: t, Origin: origin},
+				Update: []*pb.Update{{Path: &pb.Path{Elem: pathElems(path...)},
+					Val: &pb.TypedValue{Value: &pb.TypedValue_IntVal{IntVal: v}}}},
+			})
+		}
 	}
 	e.takeFed(t)
 }
@@ -1111,6 +1126,9 @@ func genSubScenario(r *rand.Rand, sc int, profile string) subScenario {
 		if r.Intn(3) == 0 {
 			d.Origin = "oc"
 		}
+		if r.Intn(5) == 0 {
+			d.PrefixElems = []elemDesc{{Name: prefixContainer}}
+		}
 		for k, np := 0, 1+r.Intn(2); k < np; k++ {
 			d.Paths = append(d.Paths, genSubPath(r, true))
 		}
@@ -1308,8 +1326,14 @@ func subscribePatterns(args []string) error {
 						}
 						d := subDesc{Mode: mode, Target: target, Origin: origin, User: "u1"}
 						pd := pathDesc{}
-						for _, e := range p {
-							pd.Elems = append(pd.Elems, elemDesc{Name: e})
+						// the same full path, split between prefix and subscription path at every position in turn
+						split := len(subs) % (len(p) + 1)
+						for i, e := range p {
+							if i < split {
+								d.PrefixElems = append(d.PrefixElems, elemDesc{Name: e})
+							} else {
+								pd.Elems = append(pd.Elems, elemDesc{Name: e})
+							}
 						}
 						d.Paths = []pathDesc{pd}
 						subs = append(subs, d)
